@@ -13,7 +13,7 @@ def join_tokens(toks, style, rnd):
     if style == "tight":
         s = ""
         for i, t in enumerate(toks):
-            if i and ((s[-1].isalnum() or s[-1] in '_"') and (t[0].isalnum() or t[0] in '_"') or (s[-1] == "|" and t[0] == "|")
+            if i and ((s[-1].isalnum() or s[-1] in '_"') and (t[0].isalnum() or t[0] in '_"') or (s[-1] == "|" and t[0] == "|") or t[0] == "#"
                       or (s[-1] == "-" and t[0] == "-" and False)):
                 s += " "
             s += t
@@ -232,4 +232,133 @@ def run(tier, rep, rnd):
         rep.sample({"tokens": tr["toks"], "text": text})
     if ok < 2000:
         raise ToolError("vacuity: fewer than 2000 syntax trees compared equal")
+    return ok
+
+
+# ---------------------------------------------------------------- files and items: spec/Items.tla
+def ty_ast(t):
+    k = t["k"]
+    if k == "int":
+        return {"k": "con", "n": "int32"}
+    if k == "tv":
+        return {"k": "con", "n": "T"}
+    if k == "fn":
+        return {"k": "fn", "ps": [{"k": "con", "n": "int32"}], "r": {"k": "con", "n": "T"}}
+    if k == "app":
+        return {"k": "app", "f": {"k": "con", "n": "S"}, "as": [{"k": "con", "n": "T"}]}
+    raise ValueError(k)
+
+
+ATTRS = {0: [], 1: ["#[note]"], 2: ["#[note]", "#[x[y](z)]"]}
+
+
+def params_ast(ps):
+    return [{"n": "a" if i == 0 else "b", "t": ty_ast(t)} for i, t in enumerate(ps)]
+
+
+def fn_ast(f):
+    return {"k": "fn", "attrs": ATTRS[f["at"]], "name": "f", "generics": [g["g"] for g in f["gens"]],
+            "bounds": [{"g": g["g"], "bs": list(g["bs"])} for g in f["gens"] if g["bs"]], "params": params_ast(f["ps"]),
+            "ret": None if f["ret"]["k"] == "none" else ty_ast(f["ret"]), "body": {"k": "block", "es": [{"k": "unit"}]}}
+
+
+def item_ast(it):
+    k = it["k"]
+    if k == "fn":
+        return fn_ast(it)
+    if k == "struct":
+        return {"k": "struct", "attrs": ATTRS[it["at"]], "name": "S", "generics": [g["g"] for g in it["gens"]],
+                "fields": [{"n": "a" if i == 0 else "b", "t": ty_ast(t)} for i, t in enumerate(it["fs"])]}
+    if k == "enum":
+        return {"k": "enum", "attrs": ATTRS[it["at"]], "name": "E", "generics": [g["g"] for g in it["gens"]],
+                "variants": [{"n": "V" if i == 0 else "W", "ts": [ty_ast(t) for t in v["ts"]]} for i, v in enumerate(it["vs"])]}
+    if k == "trait":
+        return {"k": "trait", "attrs": ATTRS[it["at"]], "name": "Tr",
+                "methods": [{"n": "m" if i == 0 else "n", "ps": [{"k": "con", "n": "Self"}] + [ty_ast(t) for t in m["ps"]],
+                             "r": {"k": "con", "n": "unit"} if m["ret"]["k"] == "none" else ty_ast(m["ret"])} for i, m in enumerate(it["ms"])]}
+    if k == "impl":
+        return {"k": "impl", "attrs": [], "generics": [g["g"] for g in it["gens"]], "trait": it["tr"] or None, "for": ty_ast(it["for"]),
+                "methods": [fn_ast(f) for f in it["ms"]]}
+    if k == "extern-go":
+        return {"k": "extern-go", "attrs": [], "pkg": "pkg", "sym": "Sym" if it["sym"] else "f", "name": "f", "explicit": it["sym"],
+                "params": params_ast(it["ps"]), "ret": None if it["ret"]["k"] == "none" else ty_ast(it["ret"])}
+    if k in ("extern-go-type", "extern-type"):
+        return {"k": "extern-type", "attrs": [], "name": "S"}
+    if k == "extern-builtin":
+        return {"k": "extern-builtin", "attrs": ["#[builtin]"], "name": "f", "params": params_ast(it["ps"]),
+                "ret": None if it["ret"]["k"] == "none" else ty_ast(it["ret"])}
+    raise ValueError(k)
+
+
+def attr_text(a):
+    """the attribute itself: the recorded text carries the trivia that follows it"""
+    depth = 0
+    for i, c in enumerate(a):
+        if c == "[":
+            depth += 1
+        elif c == "]":
+            depth -= 1
+            if depth == 0:
+                return a[: i + 1]
+    return a
+
+
+def norm_item(x):
+    if isinstance(x, dict):
+        return {k: ([attr_text(a) for a in v] if k == "attrs" else norm_item(v)) for k, v in x.items()}
+    if isinstance(x, list):
+        return [norm_item(v) for v in x]
+    return x
+
+
+def item_shape(f):
+    main = max(f["items"], key=lambda i: len(json.dumps(i)))
+    fs = ["+".join(i["k"] for i in f["items"])]
+    if main.get("at"):
+        fs.append("attrs%d" % main["at"])
+    if main.get("gens"):
+        fs.append("generics%d" % len(main["gens"]) + ("+bounds" if any(g["bs"] for g in main["gens"]) else ""))
+    if main["k"] == "impl":
+        fs.append("trait=" + (main["tr"] or "none"))
+        fs.append("methods%d" % len(main["ms"]))
+    if f["trail"]:
+        fs.append("trailing-commas")
+    return ":".join(fs)
+
+
+def run_items(tier, rep, rnd):
+    r = run_tlc("Items", "Items.cfg", workers=6, xmx="8g", timeout=1800, xss="256m")
+    if not tlc_ok(r, "Items"):
+        rep.violation(f"model:Items:{r.violated}", {"trace": r.trace[-1:]})
+    files = r.json_prints("ITEMS")
+    if len(files) < 20000:
+        raise ToolError("Items: too few files")
+    rep.coverage["syntax_states"] = rep.coverage.get("syntax_states", 0) + r.distinct
+    rnd.shuffle(files)
+    if tier == "quick":
+        files = files[:6000]
+    reqs, meta = [], []
+    styles = ["space", "tight", "mixed"]
+    for i, f in enumerate(files):
+        want = {"package": "Pk" if f["tree"]["pkg"] else None, "imports": ["Lib", "Oth"][: f["tree"]["imps"]], "items": [item_ast(it) for it in f["tree"]["items"]]}
+        text = join_tokens(f["toks"], styles[i % 3], rnd) + "\n"
+        reqs.append({"id": len(reqs), "mode": "ast", "text": text})
+        meta.append((f, want, text))
+    answers = gv_parallel("parse", reqs, shards=NCPU)
+    ok = 0
+    for (f, want, text), a in zip(meta, answers):
+        sh = item_shape(f["tree"])
+        if a["verdict"] != "ok":
+            rep.violation(f"items-{a['verdict']}:{sh}", {"text": text, "answer": {k: a.get(k) for k in ("verdict", "diags", "msg", "at")}}, replay={"text": text})
+            continue
+        got = {"package": a.get("package") if want["package"] else None, "imports": a.get("imports"), "items": norm_item(a.get("items"))}
+        if json.dumps(got, sort_keys=True) != json.dumps(want, sort_keys=True):
+            rep.violation(f"items-tree:{sh}", {"text": text, "expected": want, "got": got}, replay={"text": text})
+        else:
+            ok += 1
+    rep.coverage["item_files_in_model"] = r.distinct
+    rep.coverage["item_files_parsed_equal"] = ok
+    rep.sample({"tokens": meta[0][0]["toks"], "text": meta[0][2]})
+    if ok < 1000:
+        raise ToolError("vacuity: fewer than 1000 item files compared equal")
     return ok
